@@ -420,7 +420,7 @@ def reconstruct (z : Zone) : Zone := z
 def fixedOffset? : Zone → Option Int
   | .utc => some 0
   | .offset _ o => some o
-  | .loc sd _ false _ => some sd
+  | .loc sd _ hd _ => if hd then none else some sd
   | _ => none
 
 end Fact
